@@ -172,7 +172,7 @@ class ModuleCheck:
         ln, clause = viol[0]
         sub = vlib.extract_subtrace(trace_file, ln)
         os.makedirs(os.path.join(ROOT, "replays"), exist_ok=True)
-        path = os.path.join(ROOT, "replays", f"{pid}-{tag}-seed{seed}.ndjson")
+        path = os.path.join(ROOT, "replays", f"{pid}-{tag}-seed{seed}{vlib.REPLAY_TAG}.ndjson")
         evs = []
         for x in sub:
             if not x.strip():
